@@ -10,9 +10,9 @@ git diff -- sqlparse > /tmp/_seed_patch.$$
 [ -s /tmp/_seed_patch.$$ ] || { echo "no diff in $W"; exit 2; }
 SUITE=$(/venv/bin/python -m pytest -q -p no:cacheprovider 2>&1 | tail -1)
 /venv/bin/python _seed/demo.py >/tmp/_seed_with.$$ 2>&1; RC_WITH=$?
-git stash -q -- sqlparse
+git apply -R /tmp/_seed_patch.$$ || { echo 'cannot revert patch'; exit 2; }
 /venv/bin/python _seed/demo.py >/tmp/_seed_without.$$ 2>&1; RC_WITHOUT=$?
-git stash pop -q
+git apply /tmp/_seed_patch.$$ || { echo 'cannot re-apply patch'; exit 2; }
 echo "suite: $SUITE | demo with change: exit $RC_WITH | demo without: exit $RC_WITHOUT"
 case "$SUITE" in *" failed"*|*error*) echo "REJECT: suite does not pass"; exit 1;; esac
 [ "$RC_WITH" = 1 ] && [ "$RC_WITHOUT" = 0 ] || { echo "REJECT: demo does not discriminate"; exit 1; }
@@ -24,7 +24,7 @@ src,dst,suite,a,b=sys.argv[1:]
 try: m=json.load(open(src))
 except Exception: m={}
 m['confirmed_by_me']={'suite_with_change':suite,'demo_exit_with_change':int(a),'demo_exit_without_change':int(b),
- 'how':'tools/verify_seed.sh in the scratch worktree: pytest with the change, demo with the change, git stash, demo without, stash pop'}
+ 'how':'tools/verify_seed.sh in the scratch worktree: pytest with the change, demo with the change, git apply -R, demo without, git apply'}
 json.dump(m,open(dst,'w'),indent=1)
 PY
 rm -f /tmp/_seed_*.$$
